@@ -7,6 +7,7 @@ import (
 	"errors"
 	"fmt"
 	"strings"
+	"time"
 
 	sse "github.com/tmaxmax/go-sse"
 )
@@ -47,6 +48,7 @@ func intersects(a, b []string) bool {
 }
 
 type putInfo struct {
+	at     time.Duration
 	pos    int // index of the put record
 	ser    string
 	ok     bool // stored successfully
@@ -84,7 +86,7 @@ func check(sc Scenario, ex execution) ([]violation, facts) {
 				bad("C03", "message %s was handed to the replayer twice", r.Ser)
 			}
 			putIdx[r.Ser] = len(puts)
-			puts = append(puts, putInfo{pos: i, ser: r.Ser})
+			puts = append(puts, putInfo{pos: i, ser: r.Ser, at: r.At})
 		case "putret":
 			if k, ok := putIdx[r.Ser]; ok {
 				puts[k].err, puts[k].panic, puts[k].id, puts[k].idSet = r.Err, r.Panic, r.ID, r.IDSet
@@ -248,6 +250,9 @@ func check(sc Scenario, ex execution) ([]violation, facts) {
 			case "send", "flush":
 				if sv.ret >= 0 {
 					bad("C06", "s%d's writer was called (%s, record %d) after its Subscribe had returned (record %d)", s, r.String(), i, sv.ret)
+					if r.K == "send" {
+						bad("C03", "%s was handed to s%d (record %d) although s%d is no longer registered: its Subscribe had returned at record %d", r.Ser, s, i, s, sv.ret)
+					}
 				}
 				if sv.ownErrAt >= 0 && sv.ownErr == errWriter { //nolint:errorlint
 					bad("C06", "s%d's writer was called again (%s) after it had failed", s, r.String())
@@ -406,10 +411,19 @@ func check(sc Scenario, ex execution) ([]violation, facts) {
 		// -- C04: the replayed part
 		if sc.Replayer == "finite" || sc.Replayer == "valid" {
 			var buf []putInfo
+			replayAt := log[sv.regBegin].At
+			expired := 0
 			for _, p := range puts {
 				if p.ok && p.pos < sv.regBegin {
+					if sc.Replayer == "valid" && sc.TTLms > 0 && p.at+time.Duration(sc.TTLms)*time.Millisecond <= replayAt {
+						expired++ // no longer valid at the time of the replay
+						continue
+					}
 					buf = append(buf, p)
 				}
+			}
+			if expired > 0 {
+				f.classes = append(f.classes, "resume-with-expired-events")
 			}
 			total := len(buf)
 			if sc.Replayer == "finite" && len(buf) > sc.Cap {
@@ -431,7 +445,7 @@ func check(sc Scenario, ex execution) ([]violation, facts) {
 				}
 			}
 			evictedAuto := false
-			if pos < 0 && sv.presentedSet && sc.Auto {
+			if pos < 0 && sv.presentedSet && (sc.Auto || (sc.Replayer == "valid" && sc.TTLms > 0)) {
 				// an ID that was issued but is no longer buffered: the statement leaves it open (DESIGN 6.6)
 				for _, p := range puts {
 					if p.ok && p.pos < sv.regBegin && p.id == sv.presented {
